@@ -167,6 +167,19 @@ static void c11_string(const uint8_t *s, size_t L)
 		n = build_l23(arc, 3, "-lhd-", os, x, 1); arc[n++] = 0; c11_check(arc, n, "L3-ext-path-dir");
 		x[0].type = 1; x[0].d = fname; x[0].n = 1; x[1].type = 2; x[1].d = s; x[1].n = L;
 		n = build_l01(arc, 1, "-lh0-", (const uint8_t *) "d\\x", 3, os, x, 2, -1); arc[n++] = 0; c11_check(arc, n, "L1-name+ext-name+ext-path");
+		/* directory entries (not links) that carry a file-name header as well: with a path header, with permission bits of a
+		 * directory, with the name alone, at levels 1-3 */
+		{
+			static const uint8_t dpath[2] = { 'd', 0xff };
+			static const uint8_t PERM_DIR[2] = { 0xed, 0x41 };    /* 040755 */
+			x[0].type = 2; x[0].d = dpath; x[0].n = 2; x[1].type = 1; x[1].d = s; x[1].n = L; x[2].type = 0x50; x[2].d = PERM_DIR; x[2].n = 2;
+			n = build_l23(arc, 2, "-lhd-", os, x, 2); arc[n++] = 0; c11_check(arc, n, "L2-dir-ext-path+ext-filename");
+			n = build_l23(arc, 3, "-lhd-", os, x, 2); arc[n++] = 0; c11_check(arc, n, "L3-dir-ext-path+ext-filename");
+			n = build_l23(arc, 2, "-lhd-", os, x, 3); arc[n++] = 0; c11_check(arc, n, "L2-dir-ext-path+ext-filename+perms");
+			n = build_l01(arc, 1, "-lhd-", (const uint8_t *) "d\\", 2, os, x + 1, 1, -1); arc[n++] = 0; c11_check(arc, n, "L1-dir-name+ext-filename");
+			n = build_l23(arc, 2, "-lhd-", os, x + 1, 1); arc[n++] = 0; c11_check(arc, n, "L2-dir-ext-filename-only");
+			n = build_l23(arc, 2, "-lhd-", os, x + 1, 2); arc[n++] = 0; c11_check(arc, n, "L2-dir-ext-filename+perms");
+		}
 		/* path and filename both taken from s, split at every position */
 		for (k = 0; k <= L; ++k) {
 			if (k == 0 || k == L) continue;
@@ -262,6 +275,23 @@ int main(int argc, char **argv)
 						if (v == a[p]) continue;
 						w[p] = (uint8_t) v;
 						c12_eval(w, alen, "substitution");
+					}
+				}
+				if (a[20] <= 1) {
+					/* level 0/1: the same substitutions with the header's checksum byte recomputed afterwards, so that the rule the
+					 * substitution breaks (level, method, lengths, name rules) is what has to reject it, not the checksum */
+					for (p = 0; p < hlen && p < alen; ++p) {
+						if (p == 1) continue;
+						for (v = 0; v < 256; ++v) {
+							unsigned sum = 0; size_t q;
+							if (v == a[p]) continue;
+							memcpy(w, a, alen);
+							w[p] = (uint8_t) v;
+							if ((size_t) 2 + w[0] > alen) continue;
+							for (q = 0; q < w[0]; ++q) sum += w[2 + q];
+							w[1] = (uint8_t) sum;
+							c12_eval(w, alen, "substitution+checksum-repaired");
+						}
 					}
 				}
 				for (p = 0; p < alen; ++p) {
